@@ -14,6 +14,8 @@ use tc::{parse_snap, result_of, run_tab_with, GSnap};
 mod sys;
 #[path = "c10_sys.rs"]
 mod sys2;
+#[path = "c10_node.rs"]
+mod node;
 
 const RULE: &str = "a case is one op history on a fresh real session table: 1-4 sessions (secure with installed local ids and plain, distinct peer ports, some expired later), then a state-aware random mix of received messages with every combination of exchange id (live id, live id+-1, allocator position, random) x initiator flag x opcode class (request / standalone ack / status report) x ack (matching, stale, none) x reliability, owner look-ups, accepts (prompt, late, never), Exchange::initiate_for_session, exchange drops at any point (with pending ack / pending retransmission / clean), sends and retransmissions, session removal while exchanges are open, virtual time steps around the 1000 ms accept deadline, accept-timeout / orphan sweeps addressed to live, dropped, unknown exchanges and vanished sessions, and the dropped-exchange closer. Every op line carries the implementation's result and the table snapshot. Non-trivial = at least two distinct output lines; #stat lines give the outcome distribution; distinct = by op list";
 
@@ -310,13 +312,21 @@ fn gen_sys2(id: u64, r: &mut Rng) -> (String, Vec<String>) {
 pub fn gen(a: &Args) -> String {
     let mut r = Rng::new(a.seed);
     let mut out = Out::default();
-    out.buf.push_str(&format!("#rule {} || {}\n", RULE, SYS2_RULE));
+    out.buf.push_str(&format!("#rule {} || {} || {}\n", RULE, SYS2_RULE, node::NODE_RULE));
     let n_cases = if a.thorough { 60000 } else { 8000 };
     for id in 0..n_cases {
         let mut cr = r.fork();
         let len = if a.thorough { cr.range(5, 150) } else { cr.range(5, 60) } as usize;
         out.case(id, "tab");
         gen_case(&mut cr, &mut out, len);
+    }
+    // node level: the receive path step by step on the real RX slot (tie of Model/RxPath)
+    let n_node = if a.thorough { 20000 } else { 2500 };
+    for id in 0..n_node {
+        let mut cr = r.fork();
+        let len = if a.thorough { cr.range(5, 120) } else { cr.range(5, 50) } as usize;
+        out.case(1_000_000 + id, "node");
+        node::gen_node(&mut cr, &mut out, len);
     }
     // system level: unsolicited datagrams between two real nodes
     let n_sys = if a.thorough { 400 } else { 40 };
@@ -346,7 +356,10 @@ pub fn replay(a: &Args) -> String {
     let text = std::fs::read_to_string(a.input.as_ref().expect("--in")).expect("read input");
     let mut out = Out::default();
     for c in parse_cases(&text) {
-        if c.kind.starts_with("sys2") {
+        if c.kind.starts_with("node") {
+            out.case(c.id, &c.kind);
+            node::run_node(&mut out, &c);
+        } else if c.kind.starts_with("sys2") {
             out.case(c.id, &c.kind);
             sys2::run_sys2(&mut out, &c.kind, &c.ops);
         } else if c.kind.starts_with("sys") {
